@@ -41,6 +41,12 @@ WIDE = 2 ** 21
 BIG = sorted({s * (2 ** k + d) for k in (3, 6, 7, 8, 10, 14, 15, 16, 17, 20) for d in (-1, 0, 1) for s in (1, -1)}
              | {11, 12, 127, -128, 181, 182, 32767, -32768, 46340, 46341, -46341, 65535, 65536, 1000003, -1000003})
 INT_DTYPES = [np.int8, np.int16, np.int32, np.int64]
+# explicit UNSIGNED sample arrays (values in the upper half of the type included: 128..255 for uint8, …) — evaluated exactly like
+# the signed / dict form of the same sample
+UINT_DTYPES = [np.uint8, np.uint16, np.uint32, np.uint64]
+ALL_INT_DTYPES = INT_DTYPES + UINT_DTYPES
+# labels no generated model uses: superfluous variables of a sample
+EXTRA_LABELS = ['__e1', 987654, ('__e', 2)]
 
 
 def value(p, x):
@@ -125,11 +131,18 @@ def gen_cqm(ctx, r):
         return ts
 
     ts = terms(r.random() < .25)
+    if labs and r.random() < .4:
+        # an expression that spans the whole model, its private order = the model's order
+        ts = [(v, r.randint(-8, 8) / 4) for v in labs] + ts
+        ctx.tick('objective spans the model in model order')
     code = f'cqm.set_objective({ts!r})'
     exec(code, dict(cqm=cqm)); src.append(code); ref.set_objective_terms(ts); lines.append('objt ' + c05.terms_arg(ts))
     for i in range(r.choice([0, 1, 2, 3, 3, 4])):
         const = r.random() < .25
         ts = terms(const)
+        if labs and not const and r.random() < .25:
+            ts = [(v, r.randint(-8, 8) / 4) for v in labs] + ts
+            ctx.tick('constraint spans the model in model order')
         sense = r.choice(c05.SENSES); rhs = r.randint(-6, 6) / 2; label = r.choice([f'c{i}', i, ('c', i)])
         weight = r.choice([.5, 2.0, 1.25]) if r.random() < .45 else None
         penalty = 'linear'
@@ -141,6 +154,15 @@ def gen_cqm(ctx, r):
         ref.add_constraint_terms(ts, sense, rhs, label, weight, penalty)
         lines.append(f'cont {lab(label)} {sense} {rat(rhs)} {"-" if weight is None else rat(weight)} {c05.PEN[penalty]} {c05.terms_arg(ts)}')
         ctx.tick('constraint:' + ('const' if not ref.cons[label].p.order else 'vars') + (':soft-' + penalty if weight is not None else ':hard'))
+    bins = [v for v in labs if c05.KIND[v] == 'BINARY']
+    if len(bins) >= 2 and r.random() < .3:
+        # a discrete (one-hot) constraint next to the others: reported like any other equality `sum == 1`
+        dv = r.sample(bins, r.choice([2, 2, 3]) if len(bins) > 2 else 2)
+        code = f'cqm.add_discrete({dv!r}, label="disc")'
+        exec(code, dict(cqm=cqm)); src.append(code)
+        ref.add_discrete_vars(dv, 'disc', True)
+        lines.append(f'discv {lab("disc")} 1 ' + ','.join(lab(v) for v in dv))
+        ctx.tick('constraint:discrete')
     ctx.tick('objective:' + ('const' if not ref.obj.order else 'vars'))
     if wide:
         ctx.tick('wide INTEGER model')
@@ -392,6 +414,13 @@ def evaluate(ctx, r, out, cqm, ref, st):
     for row in rows:
         x = {v: F(a) for v, a in zip(labs, row)}
         sample = {v: row[i] for v, i in zip(sorder, spos)}
+        if labs and r.random() < .3:
+            xs = r.sample(EXTRA_LABELS, r.choice([1, 2]))
+            if r.random() < .5:
+                sample.update({e: r.choice([0, 1]) for e in xs})
+            else:
+                sample = {**{e: r.choice([0, 1]) for e in xs}, **sample}
+            ctx.tick('single sample with superfluous variables')
         per, feas, en = definition(ref, x, atol, rtol)
         try:
             data = list(cqm.iter_constraint_data(sample))
@@ -519,32 +548,38 @@ def evaluate(ctx, r, out, cqm, ref, st):
         # the same sample as an explicit NumPy row of every integer dtype that holds it (the C++ loops are
         # instantiated per sample dtype; products of two sample values must not be formed in that type)
         if labs and all(float(a).is_integer() for a in row):
-            for dt in INT_DTYPES:
+            for dt in ALL_INT_DTYPES:
                 if not all(np.iinfo(dt).min <= a <= np.iinfo(dt).max for a in row):
                     continue
                 srow = [row[i] for i in spos]
+                sorder_ = list(sorder)
+                if r.random() < .3:
+                    # a superfluous column before / between / after the model's variables
+                    pos_ = r.choice([0, len(srow), r.randrange(len(srow) + 1)])
+                    srow = srow[:pos_] + [r.choice([0, 1])] + srow[pos_:]; sorder_ = sorder_[:pos_] + ['__e1'] + sorder_[pos_:]
+                    ctx.tick('explicit row with a superfluous column')
                 arr1 = np.array([srow], dtype=dt)
                 ctx.tick('row dtype ' + np.dtype(dt).name)
                 try:
-                    gd = {a: F(float(b)) for a, b in cqm.violations((arr1, sorder)).items()}
-                    cfd = bool(cqm.check_feasible((arr1, sorder), **tol))
+                    gd = {a: F(float(b)) for a, b in cqm.violations((arr1, sorder_)).items()}
+                    cfd = bool(cqm.check_feasible((arr1, sorder_), **tol))
                     sc = r.choice(COMBOS[1:])
-                    gsc = {a: F(float(b)) for a, b in cqm.violations((arr1, sorder), skip_satisfied=sc[0], clip=sc[1]).items()}
+                    gsc = {a: F(float(b)) for a, b in cqm.violations((arr1, sorder_), skip_satisfied=sc[0], clip=sc[1]).items()}
                     if gsc != report(per, clabels, *sc):
-                        fail('CQM.violations', f'{np.dtype(dt).name} sample', f'violations(skip_satisfied={sc[0]}, clip={sc[1]}) of the {np.dtype(dt).name} row {srow!r} (columns {sorder!r}) = '
+                        fail('CQM.violations', f'{np.dtype(dt).name} sample', f'violations(skip_satisfied={sc[0]}, clip={sc[1]}) of the {np.dtype(dt).name} row {srow!r} (columns {sorder_!r}) = '
                              f'{ {a: float(b) for a, b in gsc.items()} !r}, definition { {a: float(b) for a, b in report(per, clabels, *sc).items()} !r}',
-                             f'assert cqm.violations((np.array([{srow!r}], dtype=np.{np.dtype(dt).name}), {sorder!r}), skip_satisfied={sc[0]}, clip={sc[1]}) == '
+                             f'assert cqm.violations((np.array([{srow!r}], dtype=np.{np.dtype(dt).name}), {sorder_!r}), skip_satisfied={sc[0]}, clip={sc[1]}) == '
                              f'{ {a: float(b) for a, b in report(per, clabels, *sc).items()} !r}\n')
                         ok = False
                         break
                 except Exception as e:  # noqa
-                    fail('CQM.violations', 'raises', f'{type(e).__name__}: {e} for a {np.dtype(dt).name} row', f'cqm.violations((np.array([{srow!r}], dtype=np.{np.dtype(dt).name}), {sorder!r}))\n')
+                    fail('CQM.violations', 'raises', f'{type(e).__name__}: {e} for a {np.dtype(dt).name} row', f'cqm.violations((np.array([{srow!r}], dtype=np.{np.dtype(dt).name}), {sorder_!r}))\n')
                     ok = False
                     break
                 if gd != want0 or cfd != feas:
-                    fail('CQM.violations', f'{np.dtype(dt).name} sample', f'violations of the {np.dtype(dt).name} row {srow!r} (columns {sorder!r}) = { {a: float(b) for a, b in gd.items()} !r} (feasible {cfd}), '
+                    fail('CQM.violations', f'{np.dtype(dt).name} sample', f'violations of the {np.dtype(dt).name} row {srow!r} (columns {sorder_!r}) = { {a: float(b) for a, b in gd.items()} !r} (feasible {cfd}), '
                          f'definition { {a: float(b) for a, b in want0.items()} !r} (feasible {feas})',
-                         f'assert cqm.violations((np.array([{srow!r}], dtype=np.{np.dtype(dt).name}), {sorder!r})) == { {a: float(b) for a, b in want0.items()} !r}\n')
+                         f'assert cqm.violations((np.array([{srow!r}], dtype=np.{np.dtype(dt).name}), {sorder_!r})) == { {a: float(b) for a, b in want0.items()} !r}\n')
                     ok = False
                     break
             if not ok:
@@ -565,15 +600,27 @@ def evaluate(ctx, r, out, cqm, ref, st):
         dt = float
     else:
         flat = [a for row in rows for a in row]
-        fits = [d for d in INT_DTYPES if all(np.iinfo(d).min <= a <= np.iinfo(d).max for a in flat)]
+        fits = [d for d in ALL_INT_DTYPES if all(np.iinfo(d).min <= a <= np.iinfo(d).max for a in flat)]
         dt = r.choice(fits)   # also the smallest one NumPy / as_samples would pick
         ctx.tick('matrix dtype ' + np.dtype(dt).name)
     arr = np.array(rows, dtype=dt).reshape(nrows, len(labs))
     perm = list(spos)       # the columns in the order the per-sample path named them …
     if r.random() < .35:
         r.shuffle(perm)     # … or in another order
-    sl = (arr[:, perm], [labs[i] for i in perm])
-    slsrc = f'(np.array({arr[:, perm].tolist()!r}, dtype=np.{np.dtype(dt).name}), {[labs[i] for i in perm]!r})' if labs else f'(np.empty(({nrows}, 0)), [])'
+    mat = arr[:, perm]; cols = [labs[i] for i in perm]
+    if labs and r.random() < .45:
+        # SUPERFLUOUS sample variables (labels the model does not have: samples of a larger model) before / between / after the
+        # model's variables, with the model's variables in or out of model order, one or several rows
+        where = r.choice(['after', 'after', 'before', 'between'])
+        for e in r.sample(EXTRA_LABELS, r.choice([1, 1, 2])):
+            pos = len(cols) if where == 'after' else 0 if where == 'before' else r.randrange(len(cols) + 1)
+            col = np.array([r.choice([0, 1]) for _ in range(nrows)], dtype=mat.dtype).reshape(nrows, 1)
+            mat = np.concatenate([mat[:, :pos], col, mat[:, pos:]], axis=1); cols.insert(pos, e)
+        inorder = [c_ for c_ in cols if c_ in ref.vars] == labs
+        ctx.tick(f'superfluous sample variables {where}, model variables {"in" if inorder else "out of"} model order, {"1 row" if nrows == 1 else "several rows"}')
+    mat = np.ascontiguousarray(mat)
+    sl = (mat, cols)
+    slsrc = f'(np.array({mat.tolist()!r}, dtype=np.{np.dtype(dt).name}), {cols!r})' if labs else f'(np.empty(({nrows}, 0)), [])'
     try:
         ss = SampleSet.from_samples_cqm(sl, cqm, **tol)
         rec = ss.record
@@ -586,6 +633,14 @@ def evaluate(ctx, r, out, cqm, ref, st):
         fail('SampleSet.from_samples_cqm', 'raises', f'{type(e).__name__}: {e}', f'SampleSet.from_samples_cqm({slsrc}, cqm{tolkw})\n')
         return False
     if labs:
+        # correspondence of the gather step: energies of the objective and of every lhs for the LAST row of the labelled array as
+        # given (its column order, its superfluous columns) against the Lean model of `_energies` (`feasw`)
+        one = (np.ascontiguousarray(mat[-1:, :]), cols)
+        try:
+            wexp = 'W ' + rat(cqm.objective.energy(one)) + '|' + ','.join(rat(cqm.constraints[l].lhs.energy(one)) for l in clabels) + '|0'
+            extra_out.append(dict(lines=['feasw ' + ','.join(lab(c_) for c_ in cols) + ' ' + ','.join(rat(a) for a in mat[-1].tolist())], expect=wexp, src=list(src), rows=[rows[-1]]))
+        except Exception:  # noqa  (the vectorised comparison below reports what is wrong)
+            pass
         ran.append(f'cqm.violations({ {v: rows[0][i] for v, i in zip(sorder, spos)} !r}); cqm.check_feasible({ {v: rows[0][i] for v, i in zip(sorder, spos)} !r})')
     ran.append(f'SampleSet.from_samples_cqm({slsrc}, cqm)')
     vec = ','.join(''.join(str(int(b)) for b in row) for row in sat_m) + '|' + ''.join(str(int(b)) for b in fe_v) + '|' + ','.join(rat(e) for e in en_v)
@@ -598,6 +653,19 @@ def evaluate(ctx, r, out, cqm, ref, st):
         fail('SampleSet.from_samples_cqm', 'rows/labels', 'samples or constraint labels not as given',
              f'ss = SampleSet.from_samples_cqm({slsrc}, cqm)\nassert ss.info["constraint_labels"] == {clabels!r}\n')
         return False
+    def vec_class(default):
+        """input class of a vectorised failure: is it the superfluous sample variables? (the same rows restricted to the model's
+        variables report something else)"""
+        if len(cols) == len(labs):
+            return default
+        try:
+            keep = [j for j, c_ in enumerate(cols) if c_ in ref.vars]
+            s2 = SampleSet.from_samples_cqm((np.ascontiguousarray(mat[:, keep]), [cols[j] for j in keep]), cqm, **tol)
+            same = (np.array_equal(s2.record.energy, rec.energy) and np.array_equal(s2.record.is_satisfied, rec.is_satisfied)
+                    and np.array_equal(s2.record.is_feasible, rec.is_feasible))
+        except Exception:  # noqa
+            same = True
+        return default if same else 'superfluous sample variables' + (', several rows' if nrows > 1 else '')
     nontrivial = False
     for i, row in enumerate(rows):
         x = {v: F(a) for v, a in zip(labs, row)}
@@ -606,16 +674,16 @@ def evaluate(ctx, r, out, cqm, ref, st):
         nontrivial = nontrivial or not all(wsat)
         if sat_m[i] != wsat:
             j = next(j for j in range(len(clabels)) if sat_m[i][j] != wsat[j])
-            fail('SampleSet.from_samples_cqm', cls_of(ref, clabels[j]), f'is_satisfied row {i} = {sat_m[i]}, definition {wsat}',
+            fail('SampleSet.from_samples_cqm', vec_class(cls_of(ref, clabels[j])), f'is_satisfied row {i} = {sat_m[i]}, definition {wsat}',
                  f'ss = SampleSet.from_samples_cqm({slsrc}, cqm{tolkw})\nassert list(ss.record.is_satisfied[{i}]) == {wsat!r}\n')
             return False
         if fe_v[i] != feas:
-            fail('SampleSet.from_samples_cqm', 'is_feasible', f'is_feasible row {i} = {fe_v[i]}, definition {feas}',
+            fail('SampleSet.from_samples_cqm', vec_class('is_feasible'), f'is_feasible row {i} = {fe_v[i]}, definition {feas}',
                  f'ss = SampleSet.from_samples_cqm({slsrc}, cqm{tolkw})\nassert bool(ss.record.is_feasible[{i}]) == {feas}\n')
             return False
         if en_v[i] != en:
             icls = 'constant-only objective' if (not ref.obj.order and F(float(cqm.objective.energy(dict(zip(labs, row))))) != value(ref.obj, x)) else 'energy'
-            fail('SampleSet.from_samples_cqm', icls, f'energy row {i} = {float(en_v[i])}, definition {float(en)}',
+            fail('SampleSet.from_samples_cqm', vec_class(icls), f'energy row {i} = {float(en_v[i])}, definition {float(en)}',
                  f'ss = SampleSet.from_samples_cqm({slsrc}, cqm{tolkw})\nassert ss.record.energy[{i}] == {float(en)!r}, ss.record.energy\n')
             return False
     ctx.case(key, nontrivial=nontrivial, sample=dict(build=src, rows=rows, atol=str(atol), rtol=str(rtol)))
@@ -632,6 +700,7 @@ def evaluate(ctx, r, out, cqm, ref, st):
             return False
         ctx.tick('exact_solver')
         ran.append(f'ExactCQMSolver().sample_cqm(cqm)')
+        out.append(dict(lines=[f'exact {rat(atol)} {rat(rtol)}'], check=exact_cmp(es), src=list(src), rows=[]))
         seen = set()
         esv = list(es.variables)
         for i in range(len(es.record)):
@@ -645,11 +714,373 @@ def evaluate(ctx, r, out, cqm, ref, st):
                      f'definition {float(en)}, {feas}, {[per[l][3] for l in clabels]}',
                      f'es = ExactCQMSolver().sample_cqm(cqm{tolkw})\nprint(es)\nassert False\n')
                 return False
-        if seen != set(itertools.product(*[[F(a) for a in d] for d in dom])):
+        # the expected rows: the product of the domains — one-hot assignments only for the variables of a discrete constraint
+        groups = [list(c_.p.order) for c_ in ref.cons.values() if ref.discrete(c_)]
+        gvars = [v for g_ in groups for v in g_]
+        want_rows = None
+        if len(set(gvars)) == len(gvars):
+            free = [v for v in labs if v not in gvars]
+            want_rows = set()
+            for combo in itertools.product(*[dom[labs.index(v)] for v in free]):
+                base = dict(zip(free, combo))
+                for hots in itertools.product(*groups):
+                    row_ = dict(base)
+                    for g_, hot in zip(groups, hots):
+                        for v in g_:
+                            row_[v] = 1 if v == hot else 0
+                    want_rows.add(tuple(F(row_[v]) for v in labs))
+            if groups:
+                ctx.tick('exact_solver: with a discrete constraint')
+        if want_rows is not None and seen != want_rows:
             fail('ExactCQMSolver.sample_cqm', 'enumeration', 'the rows are not exactly the assignments of the variables\' domains',
-                 f'es = ExactCQMSolver().sample_cqm(cqm)\nassert len(es) == {int(np.prod([len(d) for d in dom]))}\n')
+                 f'es = ExactCQMSolver().sample_cqm(cqm)\nassert len(es) == {len(want_rows)}\n')
             return False
+    elif (not labs or any(ref.vars[v][0] == 'REAL' for v in labs)) and r.random() < .3:
+        # no variable at all (an empty sample set WITHOUT feasibility fields — recorded, not judged) / a REAL variable (ValueError)
+        try:
+            es0 = dimod.ExactCQMSolver().sample_cqm(cqm, **tol); exc = None
+        except ValueError:
+            es0 = None; exc = 'value'
+        except Exception as e:  # noqa
+            fail('ExactCQMSolver.sample_cqm', 'raises', f'{type(e).__name__}: {e}', f'ExactCQMSolver().sample_cqm(cqm{tolkw})\n')
+            return False
+        ctx.tick('exact_solver: ' + ('no variables' if not labs else 'REAL variable'))
+        if labs and exc is None:
+            fail('ExactCQMSolver.sample_cqm', 'REAL variable', 'a model with a REAL variable was enumerated', f'ExactCQMSolver().sample_cqm(cqm)\nassert False\n')
+            return False
+        out.append(dict(lines=[f'exact {rat(atol)} {rat(rtol)}'], check=exact_cmp(es0, exc), src=list(src), rows=[]))
+    # the single-sample guard of the per-sample path: any number of rows other than one is a ValueError, from every entry point
+    if r.random() < .12:
+        k = r.choice([0, 2, 3])
+        garr = (np.zeros((k, len(labs)), dtype=np.int8), list(labs))
+        gsrc = f'(np.zeros(({k}, {len(labs)}), dtype=np.int8), {list(labs)!r})'
+
+        def raises_value(f):
+            try:
+                f()
+            except ValueError:
+                return True
+            except Exception:  # noqa
+                return False
+            return False
+        res = [raises_value(lambda: list(cqm.iter_constraint_data(garr))), raises_value(lambda: list(cqm.iter_violations(garr))),
+               raises_value(lambda: cqm.check_feasible(garr, **tol)), raises_value(lambda: cqm.violations(garr))]
+        ctx.tick(f'single-sample guard: {k} rows')
+        if not all(res):
+            fail('CQM.iter_constraint_data', 'not exactly one sample', f'{k} samples given: ValueError expected from iter_constraint_data / iter_violations / check_feasible / violations, raised: {res}',
+                 f'try:\n    cqm.violations({gsrc}); cqm.check_feasible({gsrc})\nexcept ValueError:\n    pass\nelse:\n    assert False, "no ValueError"\n')
+            return False
+        out.append(dict(lines=[f'feasg {k}'], expect='G ' + ''.join(str(int(b)) for b in res[:3]), src=list(src), rows=[]))
+    # the first branch of from_samples_cqm: an argument of length 0 (no rows given as a list / array; for a model without
+    # variables also ONE sample given as an empty dict — `len({}) == 0` — recorded as coded)
+    if r.random() < .12:
+        forms = [('[]', [], 0), (f'np.empty((0, {len(labs)}))', np.empty((0, len(labs))), 0), (f'(np.empty((0, {len(labs)})), {labs!r})', (np.empty((0, len(labs))), labs), 2)]
+        if not labs:
+            forms.append(('{}', {}, 0))
+        fsrc, farg, flen = r.choice(forms)
+        try:
+            e0 = SampleSet.from_samples_cqm(farg, cqm, **tol)
+            shp = e0.record.is_satisfied.shape
+            got0 = f'Z {shp[1] if len(shp) > 1 else 0} {int("constraint_labels" in e0.info)}'
+            nrow0 = len(e0.record)
+        except Exception as e:  # noqa
+            fail('SampleSet.from_samples_cqm', 'no rows', f'{type(e).__name__}: {e}', f'SampleSet.from_samples_cqm({fsrc}, cqm)\n')
+            return False
+        ctx.tick(f'from_samples_cqm without rows: len(argument) = {flen}' + (' (one empty dict)' if fsrc == '{}' else ''))
+        if nrow0 != 0 and fsrc != '{}':
+            fail('SampleSet.from_samples_cqm', 'no rows', f'{nrow0} rows reported for an input without rows', f'assert len(SampleSet.from_samples_cqm({fsrc}, cqm)) == 0\n')
+            return False
+        out.append(dict(lines=[f'feas0 {flen}'], expect=got0, src=list(src), rows=[]))
     st['src'] = src + ran      # the evaluations are part of what happened to this object
+    return True
+
+
+def exact_cmp(es, exc=None):
+    """comparison of the real `ExactCQMSolver` result with the Lean model's `exact` line: column set, the rows IN ORDER, is_satisfied,
+    is_feasible, energies, presence of `constraint_labels`; returns a function(model line) -> None | message"""
+    def cmp(g):
+        if exc is not None:
+            return None if g == 'X raise:' + exc else f'impl raised {exc}, model `{g[:200]}`'
+        names = es.record.dtype.names
+        if 'is_feasible' not in names:
+            return None if g == 'X nofields' else f'impl returned a sample set without feasibility fields, model `{g[:200]}`'
+        parts = g[2:].split('|') if g.startswith('X ') else []
+        if len(parts) != 6:
+            return f'model `{g[:200]}`, impl returned {len(es.record)} rows'
+        cols, rows, sat, fe, en, lbl = parts
+        cols = cols.split(',') if cols else []
+        esl = [lab(v) for v in es.variables]
+        if sorted(cols) != sorted(esl):
+            return f'columns: impl {esl}, model {cols}'
+        idx = [esl.index(c) for c in cols]
+        n = len(es.record)
+        mrows = rows.split(';') if rows else []
+        if len(mrows) != n:
+            return f'impl {n} rows, model {len(mrows)}'
+        smp = np.asarray(es.record.sample)[:, idx]
+        for i in range(n):
+            if ','.join(str(int(a)) for a in smp[i]) != mrows[i]:
+                return f'row {i}: impl {smp[i].tolist()} (columns {cols}), model {mrows[i]} — the enumeration order differs'
+        isat = ','.join(''.join(str(int(b)) for b in es.record.is_satisfied[i]) for i in range(n))
+        ife = ''.join(str(int(b)) for b in es.record.is_feasible)
+        ien = ','.join(rat(e) for e in es.record.energy)
+        if (isat, ife, ien) != (sat, fe, en):
+            return f'reports: impl {isat[:150]}|{ife[:80]}|{ien[:150]} model {sat[:150]}|{fe[:80]}|{en[:150]}'
+        if ('constraint_labels' in es.info) != (lbl == '1'):
+            return 'presence of info["constraint_labels"]'
+        return None
+    return cmp
+
+
+# ------------------------------------------------------------------------------------------------------------------
+# ExactCQMSolver over domains whose enumeration sits at an integer-dtype boundary
+
+# (lo, hi) of an INTEGER variable: the enumerated values straddle int8 / uint8 / int16 / uint16 limits, are all non-negative
+# (an implementation may pick an unsigned type), all negative, or mixed
+DOMAINS_QUICK = [(0, 127), (0, 128), (0, 129), (0, 200), (0, 255), (0, 256), (0, 300), (100, 200), (128, 255), (120, 136), (250, 260),
+                 (-1, 200), (-128, 127), (-129, 127), (-128, 128), (-200, -100), (-130, -120), (1, 130)]
+DOMAINS_THOROUGH = [(0, 32767), (0, 32768), (0, 40000), (0, 65535), (0, 65536), (32700, 32800), (65500, 65600), (-32769, -32700), (-32768, 32767)]
+SMALL = [(0, 1), (0, 3), (0, 2), (1, 2), (-1, 1), (5, 6)]
+EDGE = {0, 1, -1, 126, 127, 128, 129, 254, 255, 256, 257, -127, -128, -129, -130, 32766, 32767, 32768, 32769, 65534, 65535, 65536, 65537, -32768, -32769}
+
+
+def exact_domains(ctx, r, thorough, out):
+    """`ExactCQMSolver.sample_cqm` on a CQM whose variables' domains sit at integer-dtype boundaries, every combination of:
+    all-INTEGER non-negative / with a negative bound / next to a BINARY or SPIN variable, with or without a discrete constraint.
+    Every row with a boundary value and a random sample of the others is compared with the definition; the set of rows must be
+    the product of the domains (one-hot assignments for the variables of a discrete constraint).  Returns False to stop."""
+    cqm = CQM(); ref = c05.Ref(); src = []; lines = ['new']
+    doms = {}
+
+    def addvar(v, vt, lo=None, hi=None):
+        if vt == 'INTEGER':
+            code = f'cqm.add_variable("INTEGER", {v!r}, lower_bound={lo!r}, upper_bound={hi!r})'
+            ref.add_variable(vt, v, lo, hi); doms[v] = list(range(lo, hi + 1)); lines.append(f'addvar {vt} {lab(v)} {rat(lo)} {rat(hi)}')
+        else:
+            code = f'cqm.add_variable({vt!r}, {v!r})'
+            ref.add_variable(vt, v, None, None); doms[v] = [0, 1] if vt == 'BINARY' else [-1, 1]; lines.append(f'addvar {vt} {lab(v)} - -')
+        exec(code, dict(cqm=cqm)); src.append(code)
+
+    big = r.choice(DOMAINS_QUICK + (DOMAINS_THOROUGH if thorough and r.random() < .5 else []))
+    shape = r.choice(['one', 'one', 'two', 'two', 'two', 'with-binary', 'with-spin', 'with-negative', 'with-discrete'])
+    order = []
+    if shape in ('with-binary', 'with-spin', 'with-negative', 'with-discrete') and r.random() < .5:
+        order.append('other')
+    order.insert(r.randrange(len(order) + 1), 'big')
+    if shape == 'two':
+        order.insert(r.randrange(len(order) + 1), 'small')
+    elif 'other' not in order and shape != 'one':
+        order.append('other')
+    disc = []
+    for what in order:
+        if what == 'big':
+            addvar('i', 'INTEGER', *big)
+        elif what == 'small':
+            addvar('j', 'INTEGER', *r.choice(SMALL))
+        elif shape == 'with-binary':
+            addvar('x', 'BINARY')
+        elif shape == 'with-spin':
+            addvar('s', 'SPIN')
+        elif shape == 'with-negative':
+            addvar('j', 'INTEGER', -1, r.choice([0, 1]))
+        else:
+            disc = ['x', 'y'] + (['z'] if r.random() < .4 else [])
+            for v in disc:
+                addvar(v, 'BINARY')
+    labs = list(ref.vars)
+    if len(doms['i']) * int(np.prod([len(doms[v]) for v in labs if v != 'i'])) > (300000 if thorough else 2500):
+        return True
+
+    def terms():
+        ts = []
+        for _ in range(r.randint(1, 4)):
+            k = r.choice([0, 1, 1, 1, 2, 2])
+            if k == 0:
+                ts.append((r.randint(-8, 8) / 2,))
+            elif k == 1:
+                ts.append((r.choice(labs), r.randint(-8, 8) / 4))
+            else:
+                ts.append((r.choice(labs), r.choice(labs), r.randint(-8, 8) / 4))
+        if r.random() < .8:
+            ts.append(('i', r.choice([-3, -1, -.5, .25, 1, 2, 2.5])))
+        return ts
+
+    ts = terms()
+    code = f'cqm.set_objective({ts!r})'
+    exec(code, dict(cqm=cqm)); src.append(code); ref.set_objective_terms(ts); lines.append('objt ' + c05.terms_arg(ts))
+    mid = (big[0] + big[1]) // 2
+    for n in range(r.choice([1, 2, 2, 3])):
+        ts = terms()
+        sense = r.choice(c05.SENSES)
+        # a right-hand side in the range the left-hand side takes, so that satisfaction is mixed over the rows
+        x0 = {v: F(mid if v == 'i' else doms[v][0]) for v in labs}
+        p0, _ = ref.poly_of_terms(ts)
+        rhs = float(value(p0, x0)) + r.randint(-4, 4) / 2
+        weight = r.choice([.5, 2.0, 1.25]) if r.random() < .4 else None
+        kw = f'label="c{n}"' + (f', weight={weight!r}, penalty="linear"' if weight is not None else '')
+        code = f'cqm.add_constraint({ts!r}, {sense!r}, {rhs!r}, {kw})'
+        exec(code, dict(cqm=cqm)); src.append(code)
+        ref.add_constraint_terms(ts, sense, rhs, f'c{n}', weight, 'linear')
+        lines.append(f'cont {lab(f"c{n}")} {sense} {rat(rhs)} {"-" if weight is None else rat(weight)} 0 {c05.terms_arg(ts)}')
+    if disc:
+        code = f'cqm.add_discrete({disc!r}, label="d")'
+        exec(code, dict(cqm=cqm)); src.append(code)
+        ref.add_discrete_vars(disc, 'd', True)
+        lines.append(f'discv {lab("d")} 1 ' + ','.join(lab(v) for v in disc))
+    clabels = list(ref.cons)
+    atol, rtol = F(r.choice(TOLS)), F(r.choice(TOLS))
+    tol = dict(rtol=float(rtol), atol=float(atol))
+    tolkw = f', rtol={float(rtol)!r}, atol={float(atol)!r}'
+    pre = c05.PRELUDE + 'from dimod import SampleSet, ExactCQMSolver\n' + '\n'.join(src) + '\n'
+    unsigned_only = all(ref.vars[v][0] == 'INTEGER' and ref.vars[v][1] >= 0 for v in labs)
+    icls = (f'domain [{big[0]}, {big[1]}]' + (', every variable a non-negative INTEGER' if unsigned_only else '') + (', discrete constraint' if disc else ''))
+    ctx.tick(f'exact solver domains: {shape}' + (' (all non-negative INTEGER)' if unsigned_only else ''))
+    ctx.tick('exact solver big domain ' + ('>= 0' if big[0] >= 0 else '< 0 only' if big[1] < 0 else 'mixed sign')
+             + (' reaching 128..255' if big[1] >= 128 and big[1] <= 255 else ' reaching >= 256' if big[1] >= 256 else ''))
+
+    def fail(what, check, icls_=None):
+        ctx.fail('property', 'ExactCQMSolver.sample_cqm', icls_ or icls, what, repro=pre + check, detail=dict(build=src, atol=str(atol), rtol=str(rtol)))
+
+    try:
+        es = dimod.ExactCQMSolver().sample_cqm(cqm, **tol)
+    except Exception as e:  # noqa
+        fail(f'{type(e).__name__}: {e}', f'ExactCQMSolver().sample_cqm(cqm{tolkw})\n', 'raises')
+        return False
+    esv = list(es.variables)
+    col = [esv.index(v) for v in labs]
+    smp = es.record.sample
+    nrows = len(es.record)
+    want_n = len(doms['i'])
+    for v in labs:
+        if v != 'i' and v not in disc:
+            want_n *= len(doms[v])
+    want_n *= len(disc) or 1
+    # the set of rows: exactly the product of the domains (one-hot over the discrete variables)
+    got_rows = set(map(tuple, np.asarray(smp, dtype=object)[:, col].tolist())) if nrows <= 3000 else None
+    okrows = nrows == want_n and es.info.get('constraint_labels') == clabels
+    if okrows and got_rows is not None:
+        free = [v for v in labs if v not in disc]
+        want_rows = set()
+        for combo in itertools.product(*[doms[v] for v in free]):
+            base = dict(zip(free, combo))
+            for hot in (disc or [None]):
+                row = dict(base)
+                for v in disc:
+                    row[v] = 1 if v == hot else 0
+                want_rows.add(tuple(row[v] for v in labs))
+        okrows = {tuple(int(a) for a in t) for t in got_rows} == want_rows and all(float(a).is_integer() for t in got_rows for a in t)
+    if not okrows:
+        fail(f'{nrows} rows / labels {es.info.get("constraint_labels")!r}: not exactly the {want_n} assignments of the domains',
+             f'es = ExactCQMSolver().sample_cqm(cqm)\nassert len(es) == {want_n}, len(es)\n', 'enumeration')
+        return False
+    # rows to compare: every row holding a boundary value, and a random sample of the rest
+    icol = col[labs.index('i')]
+    ivals = np.asarray(smp[:, icol], dtype=np.int64)
+    edge = np.isin(ivals, sorted(EDGE | {big[0], big[1], mid}))
+    idx = set(np.nonzero(edge)[0].tolist()[:400]) | set(r.sample(range(nrows), min(nrows, 120)))
+    # the upper half of every unsigned width that could hold the domain
+    for lo_, hi_ in ((128, 255), (32768, 65535)):
+        up = np.nonzero((ivals >= lo_) & (ivals <= hi_))[0].tolist()
+        idx |= set(r.sample(up, min(len(up), 60)))
+    nontrivial = False
+    for i in sorted(idx):
+        x = {v: F(float(smp[i][c])) for v, c in zip(labs, col)}
+        per, feas, en = definition(ref, x, atol, rtol)
+        gsat = [bool(b) for b in es.record.is_satisfied[i]]
+        wsat = [per[l][3] for l in clabels]
+        nontrivial = nontrivial or not all(wsat)
+        if gsat != wsat or bool(es.record.is_feasible[i]) != feas or F(float(es.record.energy[i])) != en:
+            sample = {v: int(x[v]) for v in labs}
+            # do the other report paths agree with the definition on this very sample?  (then it is the solver's hand-over)
+            try:
+                direct = bool(cqm.check_feasible(sample, **tol)) == feas
+            except Exception:  # noqa
+                direct = False
+            fail(f'row {sample}: energy {float(es.record.energy[i])}, feasible {bool(es.record.is_feasible[i])}, satisfied {gsat}; definition {float(en)}, {feas}, {wsat}'
+                 + (' (check_feasible on the same sample given as a dict agrees with the definition)' if direct else ''),
+                 f'es = ExactCQMSolver().sample_cqm(cqm{tolkw})\n'
+                 f'd = [d for d in es.data(["sample", "energy", "is_satisfied", "is_feasible"]) if dict(d.sample) == {sample!r}][0]\nprint(d)\n'
+                 f'assert d.energy == {float(en)!r} and list(map(bool, d.is_satisfied)) == {wsat!r} and bool(d.is_feasible) == {feas}, d\n')
+            return False
+    ctx.case(('exact-domains', tuple(src), atol, rtol), nontrivial=nontrivial, sample=dict(build=src, atol=str(atol), rtol=str(rtol)))
+    if nrows <= 3000:
+        # correspondence: the Lean model of the solver on the same model (column set, row ORDER, every report)
+        out.append(dict(lines=lines + [f'exact {rat(atol)} {rat(rtol)}'], check=exact_cmp(es), src=list(src), rows=[]))
+    return True
+
+
+# ------------------------------------------------------------------------------------------------------------------
+# the documented DEFAULT tolerances, at their boundary
+
+def default_tolerance_boundary(ctx, r, out):
+    """Constraints whose violation sits one step of 2^-40 below / above `atol + rtol*|rhs|` for the documented defaults
+    (rtol=1e-6, atol=1e-8, passed by omission), through every entry point that has its own copy of the defaults: `check_feasible`,
+    `from_samples_cqm`, `ExactCQMSolver.sample_cqm`.  Constant-only left-hand sides, so every float operation is exact: the
+    violation is `(rhs ± v) - rhs = v` with `v` a multiple of 2^-40, and the float tolerance differs from the exact rational
+    one by < 2^-70 while `v` is at least 2^-60 away from it (checked).  Returns False to stop."""
+    A, R = F(1e-8), F(1e-6)
+    cqm = CQM(); ref = c05.Ref(); src = []; lines = ['new']
+    code = "cqm.add_variable('BINARY', 'x')"
+    exec(code, dict(cqm=cqm)); src.append(code); ref.add_variable('BINARY', 'x', None, None); lines.append(f'addvar BINARY {lab("x")} - -')
+    ts = [('x', r.choice([1.0, -2.0, .5])), (r.randint(-4, 4) / 2,)]
+    code = f'cqm.set_objective({ts!r})'
+    exec(code, dict(cqm=cqm)); src.append(code); ref.set_objective_terms(ts); lines.append('objt ' + c05.terms_arg(ts))
+    ncons = r.choice([1, 2, 3, 4])
+    for n in range(ncons):
+        sense = r.choice(c05.SENSES)
+        rhs = F(r.choice([0, 0, 1, -1, 2, -2, .5, 3, -3.5, 4]))
+        tolx = A + R * abs(rhs)
+        nlo = (tolx * 2 ** 40).__floor__()
+        if min(tolx - F(nlo, 2 ** 40), F(nlo + 1, 2 ** 40) - tolx) < F(1, 2 ** 60):
+            continue
+        kind = r.choice(['just satisfied', 'just violated', 'just satisfied', 'just violated', 'half the tolerance', 'twice the tolerance'])
+        v = {'just satisfied': F(nlo, 2 ** 40), 'just violated': F(nlo + 1, 2 ** 40), 'half the tolerance': F(nlo // 2, 2 ** 40),
+             'twice the tolerance': F(2 * nlo + 2, 2 ** 40)}[kind]
+        off = rhs + v if sense == '<=' else rhs - v if sense == '>=' else rhs + r.choice([1, -1]) * v
+        assert F(float(off)) == off and F(float(off) - float(rhs)) == off - rhs
+        weight = r.choice([2.0, .5]) if r.random() < .4 else None
+        ts = [(float(off),)]
+        kw = f'label="c{n}"' + (f', weight={weight!r}, penalty="linear"' if weight is not None else '')
+        code = f'cqm.add_constraint({ts!r}, {sense!r}, {float(rhs)!r}, {kw})'
+        exec(code, dict(cqm=cqm)); src.append(code)
+        ref.add_constraint_terms(ts, sense, float(rhs), f'c{n}', weight, 'linear')
+        lines.append(f'cont {lab(f"c{n}")} {sense} {rat(float(rhs))} {"-" if weight is None else rat(weight)} 0 {c05.terms_arg(ts)}')
+        ctx.tick(f'default tolerances: {sense} {kind}' + (' (soft)' if weight is not None else ''))
+    clabels = list(ref.cons)
+    if not clabels:
+        return True
+    pre = c05.PRELUDE + 'from dimod import SampleSet, ExactCQMSolver\n' + '\n'.join(src) + '\n'
+    nontrivial = False
+    try:
+        es = dimod.ExactCQMSolver().sample_cqm(cqm)
+        for xv in (0, 1):
+            sample = {'x': xv}
+            per, feas, en = definition(ref, {'x': F(xv)}, A, R)
+            wsat = [per[l][3] for l in clabels]
+            nontrivial = nontrivial or not all(wsat)
+            cf = bool(cqm.check_feasible(sample))
+            ss = SampleSet.from_samples_cqm(sample, cqm)
+            gsat = [bool(b) for b in ss.record.is_satisfied[0]]
+            row = [i for i in range(len(es.record)) if int(es.record.sample[i][list(es.variables).index('x')]) == xv][0]
+            esat = [bool(b) for b in es.record.is_satisfied[row]]
+            checks = [('CQM.check_feasible', cf == feas, f'check_feasible({sample!r}) = {cf}, definition {feas}', f'assert cqm.check_feasible({sample!r}) == {feas}\n'),
+                      ('SampleSet.from_samples_cqm', gsat == wsat and bool(ss.record.is_feasible[0]) == feas and F(float(ss.record.energy[0])) == en,
+                       f'from_samples_cqm({sample!r}, cqm): is_satisfied {gsat}, is_feasible {bool(ss.record.is_feasible[0])}, energy {float(ss.record.energy[0])!r}; definition {wsat}, {feas}, {float(en)!r}',
+                       f'ss = SampleSet.from_samples_cqm({sample!r}, cqm)\nassert list(map(bool, ss.record.is_satisfied[0])) == {wsat!r} and bool(ss.record.is_feasible[0]) == {feas} and ss.record.energy[0] == {float(en)!r}, ss.record\n'),
+                      ('ExactCQMSolver.sample_cqm', esat == wsat and bool(es.record.is_feasible[row]) == feas and F(float(es.record.energy[row])) == en,
+                       f'ExactCQMSolver row x={xv}: is_satisfied {esat}, is_feasible {bool(es.record.is_feasible[row])}, energy {float(es.record.energy[row])!r}; definition {wsat}, {feas}, {float(en)!r}',
+                       f'es = ExactCQMSolver().sample_cqm(cqm)\nd = [d for d in es.data(["sample", "energy", "is_satisfied", "is_feasible"]) if d.sample["x"] == {xv}][0]\n'
+                       f'assert list(map(bool, d.is_satisfied)) == {wsat!r} and bool(d.is_feasible) == {feas} and d.energy == {float(en)!r}, d\n')]
+            for site, ok, what, check in checks:
+                if not ok:
+                    ctx.fail('property', site, 'default tolerances at their boundary', what + ' (rtol, atol left to their documented defaults 1e-6, 1e-8)',
+                             repro=pre + check, detail=dict(build=src))
+                    return False
+    except Exception as e:  # noqa
+        ctx.fail('property', 'CQM.check_feasible', 'raises', f'{type(e).__name__}: {e}', repro=pre + 'cqm.check_feasible({"x": 0})\n', detail=dict(build=src))
+        return False
+    ctx.case(('default-boundary', tuple(src)), nontrivial=nontrivial, sample=dict(build=src))
+    out.append(dict(lines=lines + [f'exact {rat(A)} {rat(R)}'], check=exact_cmp(es), src=list(src), rows=[]))
     return True
 
 
@@ -666,6 +1097,13 @@ def run(ctx):
         check_one(ctx, r, out)
         if len([f for f in ctx.failures if f['kind'] == 'property']) >= 10:
             break
+    thorough = ctx.scale(0, 1) == 1
+    for _ in range(ctx.scale(60, 1500)):
+        if not exact_domains(ctx, r, thorough, out):
+            break
+    for _ in range(ctx.scale(120, 3000)):
+        if not default_tolerance_boundary(ctx, r, out):
+            break
     lines = [ln for o in out for ln in o['lines']]
     got = run_driver('cqmdriver', lines)
     ctx.corr_lines += len(lines)
@@ -675,12 +1113,13 @@ def run(ctx):
     for o in out:
         k += len(o['lines'])
         g = got[k - 1] if k - 1 < len(got) else 'MISSING'
-        if g != o['expect']:
+        msg = o['check'](g) if 'check' in o else (None if g == o['expect'] else f'impl `{o["expect"][:400]}` model `{g[:400]}`')
+        if msg is not None:
             nbad += 1
             if explained:
                 ctx.notes.append('model/impl report lines differ on a case; property failures were reported for this run')
                 break
-            ctx.fail('correspondence', 'CQM reports vs Lean Feas', 'feas', f'impl `{o["expect"][:400]}` model `{g[:400]}`',
+            ctx.fail('correspondence', 'CQM reports vs Lean Feas', o['lines'][-1].split()[0], msg,
                      detail=dict(build=o['src'], rows=o['rows']))
             if nbad >= 3:
                 break
